@@ -869,6 +869,9 @@ where
         };
         let proofs: Vec<SProof<S>> = proof.clone().into();
         let keys: Vec<(String, Pt<S>)> = ev.keys().cloned().collect();
+        if i == 0 {
+            short_challenges::<S>(ctx, prop, &inst, &qs, &ev, &proof, &mut rng);
+        }
         if equal_point_values {
             // Errors on the two polynomials tuned to the verifier's own (public, transcript-derived) challenges:
             // `x_a·δ_p + x_b·δ_q = 0` for every ordered pair of challenges the verifier squeezes on this batch.
@@ -2217,4 +2220,109 @@ pub fn c09_reloaded_all(ctx: &mut Ctx) {
     c09_reloaded::<Ipa>(ctx, n);
     c09_reloaded::<Pst13>(ctx, n);
     c09_reloaded::<Hyrax>(ctx, n);
+}
+
+/// The statement challenges a verifier squeezes with a truncated size are modelled (and, in every proof about
+/// exceptional challenge values, counted) as 128-bit values.  A verifier that asks for fewer bits is reported;
+/// when the size is small enough to search (≤ 22 bits) the search is carried out: a transcript prefix whose
+/// first challenge is ZERO, a single honest opening under that prefix, and the claim `value + 1` — which a
+/// zero challenge makes acceptable — as the concrete failing input.
+fn short_challenges<S: Scheme>(
+    ctx: &mut Ctx,
+    prop: &str,
+    inst: &Instance<S>,
+    qs: &QuerySet<Pt<S>>,
+    ev: &Evaluations<Pt<S>, Fr>,
+    proof: &BProof<S>,
+    rng: &mut Rng,
+) where
+    Pt<S>: Clone + Ord + std::fmt::Debug,
+{
+    use ark_crypto_primitives::sponge::{CryptographicSponge, FieldElementSize};
+    let id = format!("{}/{}/challenge-size", prop, S::NAME);
+    let mut hsp = fresh_sponge();
+    let _ = batch_check::<S>(inst, &inst.comms, qs, ev, proof, &mut hsp, &mut rng.clone());
+    let mut bits: Vec<usize> = vec![];
+    for e in &hsp.log {
+        if let Event::SqueezeFe(sizes, _) = e {
+            bits.extend(sizes.iter().flatten().cloned());
+        }
+    }
+    let minbits = match bits.iter().min() {
+        Some(b) => *b,
+        None => return, // no truncated squeeze: nothing to compare
+    };
+    ctx.rep.case(&format!("{} statement challenges: {} truncated squeezes, min {} bits", S::NAME, bits.len(), minbits), Some(format!("{}/challenge-bits/{}", S::NAME, minbits)));
+    if minbits >= 128 {
+        return;
+    }
+    let txt = format!("# scheme: {}\n# case: {}\n# seed: {}\n# the verifier squeezes statement challenges of {} bits; the model and every exceptional-set theorem count 128-bit challenges\n", S::NAME, id, ctx.seed, minbits);
+    if minbits > 22 {
+        ctx.rep.model_disagreements.push(Failure {
+            case_id: id.clone(),
+            signature: format!("{}/challenge-size", S::NAME),
+            what: format!("statement challenges of {} bits (model: 128)", minbits),
+            replay: txt,
+        });
+        return;
+    }
+    // search a prefix with a zero first challenge
+    let mut found = None;
+    for ctr in 0u64..(12u64 << minbits) {
+        let mut sp = fresh_sponge();
+        sp.absorb(&ctr.to_le_bytes().to_vec());
+        let c: Fr = sp.inner.squeeze_field_elements_with_sizes(&[FieldElementSize::Truncated(minbits)])[0];
+        if c.is_zero() {
+            found = Some(ctr);
+            break;
+        }
+    }
+    let ctr = match found {
+        Some(c) => c,
+        None => {
+            ctx.rep.model_disagreements.push(Failure {
+                case_id: id.clone(),
+                signature: format!("{}/challenge-size", S::NAME),
+                what: format!("statement challenges of {} bits (model: 128); no zero-challenge prefix found in {} trials", minbits, 12u64 << minbits),
+                replay: txt,
+            });
+            return;
+        }
+    };
+    // one unbounded polynomial, honest single opening under the prefix, claim value + 1
+    let k = match inst.polys.iter().position(|p| p.degree_bound().is_none()) {
+        Some(k) => k,
+        None => 0,
+    };
+    let z = S::rand_point(rng, &inst.sizes);
+    let v = inst.polys[k].evaluate(&z);
+    let mk = || {
+        let mut sp = fresh_sponge();
+        sp.absorb(&ctr.to_le_bytes().to_vec());
+        sp
+    };
+    let opened = guarded(|| {
+        let mut sp = mk();
+        S::PC::open(&inst.ck, [&inst.polys[k]], [&inst.comms[k]], &z, &mut sp, [&inst.states[k]], Some(&mut rng.clone()))
+    });
+    let pf = match opened {
+        Ok(Ok(p)) => p,
+        _ => return,
+    };
+    let out = Outcome::from(guarded(|| {
+        let mut sp = mk();
+        S::PC::check(&inst.vk, [&inst.comms[k]], &z, [v + Fr::one()], &pf, &mut sp, Some(&mut rng.clone()))
+    }));
+    if out.accepted() {
+        ctx.rep.expect_fail(&id, &format!("{}/false-claim-accepted/zero-challenge-prefix", S::NAME),
+            &format!("with the transcript prefix {} (found in {} trials: the statement challenges have only {} bits) the honest opening proof is accepted for value + 1", ctr, ctr + 1, minbits),
+            format!("{}# sponge: fresh, then absorb the 8 little-endian bytes of {}; polynomial {} opened at {:?}; claimed value = true value + 1\n# rerun: .build/cargo/debug/pcv-harness {} --seed {} --only {}\n", txt, ctr, inst.polys[k].label(), z, prop, ctx.seed, id));
+    } else {
+        ctx.rep.model_disagreements.push(Failure {
+            case_id: id.clone(),
+            signature: format!("{}/challenge-size", S::NAME),
+            what: format!("statement challenges of {} bits (model: 128); zero-challenge prefix {} did not make value+1 acceptable ({:?})", minbits, ctr, out),
+            replay: txt,
+        });
+    }
 }
